@@ -89,6 +89,29 @@ def cases(tier):
     return _cases(tier)
 
 
+def enumerate_cases(tier):
+    """Long histories, every run: one operator meets N distinct key-pattern combinations (N = 1300 quick, 4500 thorough) and then
+    every one of them again, oldest first, with another coefficient type -- nothing may be generated in the second pass (a cache
+    that forgets old patterns, e.g. a size-bounded one, breaks the contract only after that many patterns)."""
+    from itertools import permutations
+    N = 1300 if tier == "quick" else 4500
+    blades = list(range(16))
+    tuples = [[]] + [[k] for k in blades] + [list(p_) for p_ in permutations(blades, 2)] + [list(p_) for p_ in permutations(blades[:8], 3)]
+    for op, binary in (("add", True), ("reverse", False), ("op", True)) + ((("gp", True), ("neg", False)) if tier == "thorough" else ()):
+        if binary:
+            side = int(N ** 0.5) + 1
+            pool = tuples[:side + 1]
+            pairs = [(i, j) for i in range(side) for j in range(side)][:N]
+            first = [{"k": "bin", "op": op, "i": i, "j": j, "ti": "int", "tj": "int"} for i, j in pairs]
+            again = [{"k": "bin", "op": op, "i": i, "j": j, "ti": "float", "tj": "Fraction"} for i, j in pairs]
+        else:
+            pool = tuples[:N]
+            first = [{"k": "un", "op": op, "i": i, "ti": "int"} for i in range(len(pool))]
+            again = [{"k": "un", "op": op, "i": i, "ti": "float"} for i in range(len(pool))]
+        yield {"cfg": {"sig": [1, 1, 1, 0], "start": None, "basis": None}, "opts": "plain", "pool": pool, "steps": first + again, "vseed": 1,
+               "long": True}
+
+
 # ---------------------------------------------------------------------------------------------------------------------
 class Counter:
     """Counts generation events while installed.  Installed per evaluate() and always removed again."""
@@ -290,6 +313,8 @@ def _evaluate(case, cnt):
             seen[mkey] = {"types": {types}, "func": ent[1]}
             counters["first_events"] += len(new)
     labels = [f"d:{d}", f"opts:{opts}"]
+    if case.get("long"):
+        labels.append("long-history")
     if newtype:
         labels.append("repeat:newtype")
     return Info(newtype, labels, case, counters)
